@@ -33,9 +33,21 @@ TValidate == /\ l <= Len(TraceLog) /\ Line.ev = "validate"
                 /\ cache' = w.q
                 /\ last' = [chain |-> ch, ok |-> (w.res = "ok"), why |-> w.res, at |-> l]
              /\ l' = l + 1 /\ UNCHANGED steps
+\* the same chain presented by a TLS server; the client (trusting the anchor) completes the handshake iff the walk succeeds, and its
+\* validation works on the same process-wide cache
+THandshake == /\ l <= Len(TraceLog) /\ Line.ev = "hsval"
+              /\ LET ch == ChainOf(Line.chain)
+                     w == Walk(cache, ch, 1) IN
+                 /\ (Line.hc = 1) = (w.res = "ok")
+                 /\ Line.hc = 1 => \A c \in InChain(ch) : ~RevokedByLoaded(cache, c)
+                 /\ cache' = w.q
+                 /\ last' = [chain |-> ch, ok |-> (w.res = "ok"), why |-> w.res, at |-> l]
+              /\ l' = l + 1 /\ UNCHANGED steps
 TClear == /\ l <= Len(TraceLog) /\ Line.ev \in {"crlclear", "Reset"}
           /\ cache' = [n \in Names |-> NoCrl] /\ l' = l + 1 /\ UNCHANGED <<last, steps>>
-TraceNormal == TLoad \/ TValidate \/ TClear
+TOther == /\ l <= Len(TraceLog) /\ Line.ev \notin {"crl", "validate", "hsval", "crlclear", "Reset"}        \* the steps of a handshake in between
+          /\ l' = l + 1 /\ UNCHANGED <<cache, last, steps>>
+TraceNormal == TLoad \/ TValidate \/ THandshake \/ TClear \/ TOther
 TReject == /\ l <= Len(TraceLog) /\ ~ENABLED TraceNormal
            /\ PrintT(<<"TRACE_REJECT_LINE", l, <<"-", "-", "-", FALSE, FALSE>> >>) /\ l' = l + 1 /\ UNCHANGED <<cache, last, steps>>
 TDone == /\ l = Len(TraceLog) + 1 /\ PrintT(<<"TRACE_DONE", Len(TraceLog)>>) /\ l' = l + 1 /\ UNCHANGED <<cache, last, steps>>
